@@ -47,7 +47,8 @@ package go_clipper2
 //@   expect  [exact] result == (cross(pt1, sharedPt, pt2) == 0)
 
 //@ func CrossProduct
-//@   props C14
+//@   props C14 C13
+//@   floats rounded
 //@   requires dom(pt1,29) && dom(pt2,29) && dom(pt3,29)
 //@   ensures [zero] (result == 0) == (cross(pt1, pt2, pt3) == 0)
 //@   ensures [sign] (result > 0) == (cross(pt1, pt2, pt3) > 0)
@@ -1125,6 +1126,7 @@ package go_clipper2
 
 //@ func dotProduct64
 //@   props C13 C01
+//@   floats rounded
 //@   requires dom(pt1,29) && dom(pt2,29) && dom(pt3,29)
 //@   ensures [sign] (result > 0) == (dotP(pt1, pt2, pt3) > 0) && (result == 0) == (dotP(pt1, pt2, pt3) == 0)
 
